@@ -37,6 +37,7 @@ static void patch_in (program_t *, short *, size_t);
 static int str_case_cmp (char *, char *);
 static int check_times (time_t, const char *);
 static int inherited_source_newer (program_t *, time_t);
+static int program_files_newer (program_t *, time_t);
 static int locate_in (program_t *);
 static int locate_out (program_t *);
 
@@ -654,7 +655,7 @@ program_t *load_binary (const char *name) {
           return 0;
         }
       /* the programs that one inherits in turn: a change in any of their sources makes this binary stale as well */
-      if (inherited_source_newer (ob->prog, mtime))
+      if (program_files_newer (ob->prog, mtime) || inherited_source_newer (ob->prog, mtime))
         {
           opt_trace (TT_COMPILE|1, "out of date (indirectly inherited source is newer).");
           fclose (f);
@@ -902,6 +903,31 @@ check_times (time_t mtime, const char *nm)
 }				/* check_times() */
 
 /*
+ * Is any file that contributed lines to prog (its source and everything it included)
+ * newer than mtime? The line number tables of a loaded program name these files, also
+ * when the program has no saved binary with an include list of its own.
+ */
+static int
+program_files_newer (program_t * prog, time_t mtime)
+{
+  unsigned short *fi, *end;
+
+  if (!prog->file_info)
+    return 0;
+  fi = prog->file_info + 2;
+  end = prog->file_info + prog->file_info[1];
+  for (; fi + 1 < end; fi += 2)
+    {
+      int id = fi[1];
+
+      if (id >= 1 && id <= (int) prog->num_strings && prog->strings[id - 1]
+          && check_times (mtime, prog->strings[id - 1]) == 0)
+        return 1;
+    }
+  return 0;
+}
+
+/*
  * Is the source of any program that prog inherits (at any depth) newer than mtime?
  */
 static int
@@ -916,6 +942,8 @@ inherited_source_newer (program_t * prog, time_t mtime)
       if (!ip)
         continue;
       if (ip->name && check_times (mtime, ip->name) == 0)
+        return 1;
+      if (program_files_newer (ip, mtime))
         return 1;
       if (inherited_source_newer (ip, mtime))
         return 1;
